@@ -295,6 +295,19 @@ func toleratedSentinels(c *an.Ctx, rule string) {
 				continue
 			}
 			idx := an.ErrResultIndex(fn.Signature)
+			// only a function that reports the sentinel for its own file can confuse "my file is missing"
+			// with "a file I import is missing"; helpers in between merely carry the value
+			origin := false
+			for _, ret := range an.Returns(fn) {
+				for _, g := range via(an.RetVal(ret, idx), map[ssa.Value]bool{}) {
+					if g == nil {
+						origin = true
+					}
+				}
+			}
+			if !origin {
+				continue
+			}
 			for _, ret := range an.Returns(fn) {
 				for _, g := range via(an.RetVal(ret, idx), map[ssa.Value]bool{}) {
 					if g == nil {
